@@ -196,3 +196,52 @@ func VC08_race() {
 	}
 	_ = c8server0
 }
+
+// VC08_weeks: two finished weeks are pending. In the first run every request gets an
+// arbitrary outcome without a client error (acknowledged, server error, no answer) - so
+// the older week may fail while the newer one is acknowledged; later runs meet a healthy
+// server. Every week is then acknowledged exactly once, whatever the order of outcomes.
+func VC08_weeks() {
+	w1, end := c8setup()
+	w2 := vrt.DateStr(end + 7)
+	u0 := vuUploader(&telemetry.UploadConfig{}, vuInstant(end+7+3, 3600))
+	vuAddCountFile(u0, "f", end-7, end, vuBuilds[0], map[string]uint64{"c": 3})
+	vuAddCountFile(u0, "g", end, end+7, vuBuilds[0], map[string]uint64{"c": 4})
+	outcomes := []int{200, 500, 0, 503}
+	first := true
+	vhttp.PostHook = func(url string, body []byte) (int, error) {
+		week := url[len("http://srv/"):]
+		code := 200
+		if first {
+			code = outcomes[vrt.Choose(len(outcomes))]
+		}
+		c8log = append(c8log, c8req{week: week, body: string(body), code: code, recorded: vuExists(vuDir + "/upload/" + week + ".json")})
+		if code == 0 {
+			return 0, errors.New("no answer")
+		}
+		return code, nil
+	}
+	for run := 0; run < 3; run++ {
+		first = run == 0
+		u := vuUploader(&telemetry.UploadConfig{}, vuInstant(end+7+3+int64(run), 3600))
+		vuX = c8nextX()
+		u.Run()
+	}
+	for _, w := range []string{w1, w2} {
+		acks := 0
+		for _, r := range c8log {
+			if r.week != w {
+				continue
+			}
+			vrt.Assert(!r.recorded, "a report recorded as uploaded is never sent again (two weeks)")
+			if r.code == 200 {
+				acks++
+			}
+		}
+		vrt.Assert(acks == 1, "every uploadable week is eventually acknowledged exactly once, whatever happened to the other week")
+		vrt.Assert(vuExists(vuDir+"/upload/"+w+".json") && !vuExists(vuDir+"/local/"+w+".json"), "every acknowledged week is recorded as uploaded")
+	}
+	for _, r := range c8log {
+		vrt.Assert(r.week == w1 || r.week == w2, "requests are made for the pending weeks only")
+	}
+}
